@@ -8,7 +8,7 @@ mkdir -p .cache work evidence replays
 # concurrently copied build must not be trusted
 ( cd coq && rm -f .Makefile.d Makefile Makefile.conf .lia.cache && find . \( -name '*.vo' -o -name '*.vos' -o -name '*.vok' -o -name '*.glob' -o -name '*.aux' \) -delete \
   && coq_makefile -f _CoqProject -o Makefile >/dev/null && timeout 3000 make -j16 )
-( cd harness/driver && RUSTFLAGS="--cfg wgsl_to_wgpu_verif" CARGO_TARGET_DIR=/verif/.cache/target cargo build --release --offline )
+( cd harness/driver && RUSTFLAGS="--cfg wgsl_to_wgpu_verif" CARGO_TARGET_DIR="$PWD/../../.cache/target" cargo build --release --offline )
 # warm the dependency builds of the scratch crates (real wgpu 24.0.5 etc. for `cargo check`, the recording shim)
 head -n 6 harness/driver/testdata/smoke.jsonl > .cache/warm.jsonl
 .cache/target/release/driver batch .cache/warm.jsonl .cache/batch/warm --real --shim >/dev/null 2>&1 || true
